@@ -250,6 +250,7 @@ func allChecksRaw() []*Check {
 				gjf("C06.root.n3", "VerifC06Root", 3, "C06.root.nil", "C06.root.exact.count", "C06.root.exact.kind", "C06.root.untouched", "C06.root.exists.err", "C06.root.exists.unchanged"),
 				gjf("C06.fault.n3", "VerifC06Fault", 3, "C06.fault.reported/longname", "C06.fault.reported/targetisfile"),
 				gjf("C06.dup.n3", "VerifC06Dup", 3, "C06.dup.kind", "C06.dup.count", "C06.dup.nil", "C06.dup.inside", "C06.dup.end"),
+				gjf("C06.dup.wide4", "VerifC06Dup", 14, "C06.dup.kind", "C06.dup.count", "C06.dup.nil", "C06.dup.inside", "C06.dup.end"),
 				gj("C06.bytes.e4n5", "VerifC06Bytes", 45, "C06.bytes.nil", "C06.bytes.file", "C06.bytes.dir", "C06.bytes.dir.made"),
 			},
 			Thorough: []Job{
